@@ -365,7 +365,9 @@ def char_closure_image(body, char_arg_local=2):
     it = Interp(body, call_model=char_call_model, sym_binop=char_sym_binop, sym_switch=char_sym_switch)
     out = {}
     for a in char_atoms():
-        r = it.run({char_arg_local: a, 1: ("closure-env",)})
+        args = {1: ("closure-env",)}
+        args[char_arg_local] = a      # a plain fn has the char as its first parameter
+        r = it.run(args)
         if r[0] != "return":
             raise Undecided("closure did not return")
         out[a] = r[1]
